@@ -49,8 +49,11 @@ CLASSES = [
     "OrthogonalMatrix", "ScaledOrthogonalMatrix", "EigendecomposedSymmetricMatrix",
     "EigendecomposedPositiveDefiniteMatrix", "SquareLowRankUpdateMatrix", "SymmetricLowRankUpdateMatrix",
     "PositiveDefiniteLowRankUpdateMatrix", "IdentityMatrix", "DenseRectangularMatrix", "DenseSquareMatrix",
-    "InverseLUFactoredSquareMatrix", "DenseSymmetricMatrix",
+    "InverseLUFactoredSquareMatrix", "DenseSymmetricMatrix", "DensePositiveDefiniteProductMatrix",
 ]
+# classes whose inverse / sqrt / scalar members are inherited from a parent that is checked on its own
+# atoms (the array of the product class is the word B P B', to which the factor lemma does not apply)
+R1_ONLY = {"DensePositiveDefiniteProductMatrix"}
 # members that are outside the operator algebra by nature (LAPACK Schur square root); anything else
 # that cannot be evaluated is an unrecognised idiom and fails the run (exit 2) instead of being skipped
 ALLOWED_OUTSIDE = {"PositiveDefiniteLowRankUpdateMatrix._construct_sqrt"}
@@ -94,6 +97,10 @@ def den(cls: str, args: dict, alg: Alg) -> LinComb:
         return _m(args, "diagonal", alg)
     if cls in ("TriangularMatrix", "DenseSquareMatrix", "DenseSymmetricMatrix", "DenseRectangularMatrix", "OrthogonalMatrix", "DenseDefiniteMatrix", "DensePositiveDefiniteMatrix"):
         return _m(args, "array", alg)
+    if cls == "DensePositiveDefiniteProductMatrix":
+        b = _m(args, "rect_matrix", alg)
+        p_ = _m(args, "pos_def_matrix", alg, alg.ident())
+        return alg.mul(alg.mul(b, p_), alg.T(b))
     if cls == "InverseTriangularMatrix":
         return alg.inv(_m(args, "inverse_array", alg))
     if cls == "InverseLUFactoredSquareMatrix":
@@ -259,7 +266,7 @@ def instance_lemmas(k, alg: Alg, args, attrs):
 
 
 def rule_algebra(rep, program: Program):
-    r1 = rep.rule("R1", "left product, right product, dense array and transpose of each class denote one operator", floor=88)
+    r1 = rep.rule("R1", "left product, right product, dense array and transpose of each class denote one operator", floor=91)
     r4 = rep.rule("R4", "inverse, square root and scalar multiple satisfy M^-1 M = I, S S^T = M, (c M) = c * M", floor=53)
     r5 = rep.rule("R5", "forwarded capacitance caches equal their definition on the new arguments; lower/upper flags follow transposition", floor=20)
     # floors count decided (class, member[, LU flag]) obligations, not return paths: merging two
@@ -271,6 +278,8 @@ def rule_algebra(rep, program: Program):
         for member in ("_left_matrix_multiply", "_right_matrix_multiply", "_construct_array", "_construct_transpose", "_construct_inv", "_construct_sqrt", "_scalar_multiply"):
             f = k.resolve(member)
             if f is None or f.is_abstract:
+                continue
+            if cname in R1_ONLY and member not in ("_left_matrix_multiply", "_right_matrix_multiply", "_construct_array", "_construct_transpose"):
                 continue
             for lu_flag in ((False, True) if cname in LU_CLASSES else (None,)):
                 alg = Alg()
